@@ -11,7 +11,11 @@
 //!
 //! In addition, it provides methods for [hierarchical clustering](`linkage::Linkage`) of `HpoSet`s.
 
+#[cfg(not(feature = "verif"))]
 use std::collections::HashMap;
+#[cfg(feature = "verif")]
+#[allow(unused_imports)]
+use crate::verif::{HashMap, MapNew};
 use std::marker::PhantomData;
 
 use crate::annotations::{AnnotationId, Disease, GeneId, OmimDiseaseId, OrphaDiseaseId};
